@@ -116,7 +116,7 @@ func (w *World) applyEvent(ev string) bool {
 		w.restarts = append(w.restarts, w.S.Now)
 		w.CleanRestart()
 		w.lastUnsync = w.S.Now
-		if len(p) == 1 {
+		if len(p) == 1 || p[1] != "raw" {
 			w.settleMacro() // "restart" brings the node back in sync; "restart:raw" does not
 			w.lastUnsync = w.S.Now
 		}
